@@ -54,9 +54,9 @@ class AstCase(pfbase.CfgCase):
                     text = pfbase.native_pformat(self.value, w, rw, indent=self.indent)
                     indents = [len(l) - len(l.lstrip(' ')) for l in text.split('\n')[1:] if l.strip()]
                 else:
-                    stream = pfbase.sdocs(self.value, w, rw, False, indent=self.indent)
-                    text = pfbase.stream_text(stream)
-                    indents = [x.indent for x in stream if isinstance(x, SLine)]
+                    text = pfbase.ptext(self.value, w, rw, indent=self.indent)
+                    with NoTracing():
+                        indents = [len(l) - len(l.lstrip(' ')) for l in text.split('\n')[1:] if l.strip()]
             except Exception as e:
                 exc = type(e).__name__
                 return self.fail('C03:pformat-raises-' + exc, lambda: '%s: %s' % (exc, e))
